@@ -49,7 +49,7 @@ def check(ctx):
     ctx.rule("R-C08.1", "token conservation: no production result or information-carrying token is bound and then dropped on a path to return")
     ctx.rule("R-C08.2", "emission completeness and grouping in the generator (visitor coverage, field use, parenthesisation, precedence agreement)")
     ctx.rule("R-C08.3", "alternatives that store unwrapped results in the same slot return disjoint classes")
-    ctx.rule("R-C08.5", "declaration and statement wiring: every declarator's own name, bit-field width, initialiser and derivations end up in its own declaration; every statement ends up once, in source order, under its construct (reviewed def-use reference, append linearity of the switch regrouping)")
+    ctx.rule("R-C08.5", "expression, declaration and statement wiring: operands are grouped as C groups them (precedence table, climbing loop, operand levels of every expression production); every declarator's own name, bit-field width, initialiser and derivations end up in its own declaration; every statement ends up once, in source order, under its construct (reviewed def-use reference, append linearity of the switch regrouping)")
     ctx.rule("R-C08.6", "joining adjacent string literals cannot change what they denote (an escape sequence ending one piece is not extended by the next piece)")
     ctx.rule("R-C08.4", "a node built once is attached to one parent")
     px = S.module("c_parser")
@@ -97,6 +97,7 @@ def check(ctx):
     # ---- R-C08.5: per-declarator data reaches its own declaration (builder wiring, decided by the C03 machinery) ----------
     from . import share
     share.borrow(ctx, "C03", ("R-C03.1",), "R-C08.5", count=60)
+    share.borrow(ctx, "C02", ("R-C02.1", "R-C02.2", "R-C02.3"), "R-C08.5", count=40)      # expressions: operands are grouped as C groups them (a regrouped expression computes something else)
     share.borrow(ctx, "C05", ("R-C05.1", "R-C05.2"), "R-C08.5", count=40)      # statements: none is lost, duplicated or moved by the builders and the switch regrouping
     # ---- R-C08.6: adjacent string literals keep their meaning when joined -------------------------------------------------------
     from . import c02
